@@ -500,6 +500,89 @@ class CheckHistories(Family):
         return 'ok', nt
 
 
+class InPlaceAndClock(Family):
+    """(a) ONE CMutableTransaction object is checked, looked at the way callers do (its outpoints put into a set, hashed,
+    compared), edited in place into every rule violation of the transaction catalogue in turn and back, and checked after
+    every step: the verdict is the reference verdict for the fields at that moment.  (b) every sequence of <= 3 header /
+    block checks over {three values of cur_time} x {timestamp = cur_time + 7200, + 7201}: the two-hour rule is judged
+    against the cur_time of the call, whatever clock values earlier calls were given."""
+    name = 'inplace_transaction_and_clock_histories'
+    engine = 'E2'
+    nontrivial_rule = 'every case'
+    CLOCK = [(t, d) for t in (CUR_TIME - 100000, CUR_TIME, CUR_TIME + 100000) for d in (7200, 7201)]
+
+    def shards(self, tier):
+        return ['tx', 'clock_header', 'clock_block']
+
+    def cases(self, shard, tier):
+        if shard == 'tx':
+            for nin, nout in ((2, 1), (2, 2), (3, 3)):
+                for look in ('none', 'set_of_prevouts', 'hash_all', 'check_first'):
+                    yield ('tx', nin, nout, look)
+            return
+        from mc.core import all_sequences
+        for seq in all_sequences(len(self.CLOCK), 3):
+            yield (shard, list(seq))
+
+    def check(self, case):
+        from bitcoin.core import CheckTransaction, CheckBlock, CheckBlockHeader, ValidationError, CBlock, CBlockHeader
+        C.select('regtest')
+        if case[0] == 'tx':
+            _, nin, nout, look = case
+            m0 = base_tx(nin, nout, False)
+            tx = C.lib_tx(m0, mutable=True)
+
+            def verdict(label, m):
+                want = R.check_transaction(m)
+                try:
+                    CheckTransaction(tx)
+                    got = None
+                except ValidationError as e:
+                    got = type(e).__name__
+                if (got is None) != (want is None):
+                    raise Viol('CheckTransaction of ONE mutable transaction object %s: library %s, rules %s' % (label, 'accepts' if got is None else 'rejects', 'accept' if want is None else 'reject: ' + want),
+                               'accept' if want is None else 'reject: ' + want, got)
+            if look == 'check_first':
+                verdict('before any edit', m0)
+            elif look == 'set_of_prevouts':
+                if len(set(i.prevout for i in tx.vin)) != nin or len({bytes(i.prevout.hash) + bytes([i.prevout.n & 0xff]) for i in tx.vin}) != nin:
+                    raise HarnessError('base outpoints not distinct')
+            elif look == 'hash_all':
+                for o in [tx] + list(tx.vin) + list(tx.vout) + [i.prevout for i in tx.vin]:
+                    hash(o)
+                    o == o
+            n = 0
+            for name, fn in sorted(tx_mutations(m0).items()):
+                m2 = fn(copy.deepcopy(m0))
+                C.sync_inplace(tx, m2)
+                verdict('after in-place edit %s (object looked at before: %s)' % (name, look), m2)
+                C.sync_inplace(tx, m0)
+                verdict('after undoing in-place edit %s' % name, m0)
+                n += 2
+            return 'tx', True, n
+        kind, seq = case
+        for k, i in enumerate(seq):
+            t, d = self.CLOCK[i]
+            spec = dict(base_spec('b1'), time=t + d, cur_time=t)
+            b = build_block(spec)
+            want = R.check_block(b, RC.POW_LIMIT['regtest'], t, True)
+            if (want is None) != (d == 7200):
+                raise HarnessError('reference two-hour rule')
+            try:
+                if kind == 'clock_header':
+                    CheckBlockHeader(CBlockHeader.deserialize(W.encode_header(b)), cur_time=t)
+                else:
+                    CheckBlock(CBlock.deserialize(W.encode_block(b)), cur_time=t)
+                got = None
+            except ValidationError as e:
+                got = type(e).__name__
+            if (got is None) != (want is None):
+                raise Viol('%s with cur_time=%d and a timestamp %d s ahead, after earlier calls with (cur_time, ahead) = %r: library %s' % (
+                    'CheckBlockHeader' if kind == 'clock_header' else 'CheckBlock', t, d, [self.CLOCK[j] for j in seq[:k]], 'accepts' if got is None else 'rejects'),
+                    'accept' if want is None else 'reject: ' + want, got)
+        return kind, len(seq) > 1
+
+
 def selftest(run):
     # the reference rules on hand-made cases
     ok = base_tx(2, 2)
@@ -542,4 +625,4 @@ def selftest(run):
 
 
 def families(tier):
-    return [TxRules(), BlockRules(), BlockLimits(), CheckHistories()]
+    return [TxRules(), BlockRules(), BlockLimits(), CheckHistories(), InPlaceAndClock()]
